@@ -119,6 +119,9 @@ def run_set(case, ctx):
             raise _Stop()
 
     observe("init")
+    sparse = case.get("observe") == "sparse"
+    if sparse:
+        ctx.label("observed-only-through-its-own-reads")
     for o in case["ops"]:
         k = o[0]
         if k == "add":
@@ -179,7 +182,10 @@ def run_set(case, ctx):
             ctx.label("foreign-mutation")
         else:
             raise AssertionError(k)
-        observe(k)
+        # a third of the drawn histories are observed only through the point reads they contain (and in full at the end):
+        # a full iteration after every step would refresh read-side state before a single lookup can expose it (C12, round 16)
+        if not sparse or o is case["ops"][-1]:
+            observe(k)
     if src0 is not None:
         left = guard(ctx, "SortedSet/iter", lambda: take(src0, len(init) + 2))
         ctx.need(left == sorted(set(init)), "SortedSet/init-from-SortedSet/source-changed",
@@ -238,6 +244,9 @@ def run_map(case, ctx):
             raise _Stop()
 
     observe("init")
+    sparse = case.get("observe") == "sparse"
+    if sparse:
+        ctx.label("observed-only-through-its-own-reads")
     for o in case["ops"]:
         k = o[0]
         if k == "set":
@@ -368,7 +377,10 @@ def run_map(case, ctx):
             ctx.label("foreign-mutation")
         else:
             raise AssertionError(k)
-        observe(k)
+        # a third of the drawn histories are observed only through the point reads they contain (and in full at the end):
+        # a full iteration after every step would refresh read-side state before a single lookup can expose it (C12, round 16)
+        if not sparse or o is case["ops"][-1]:
+            observe(k)
     if init is not None and form == "sortedmap":
         # two maps, one built from the other, are independent: the source still holds exactly the initial pairs
         left = guard(ctx, "SortedMap/items", lambda: take(src0.items(), len(init_pairs) + 2))
@@ -399,14 +411,23 @@ def strategies(tier):
     num = st.sampled_from(NUMS)
     hist = st.one_of(codes(0, 10), codes(12, 40))
     set_init = st.one_of(st.none(), st.just([]), st.lists(num, max_size=8), st.lists(st.sampled_from([1, 1.0, True, 0, -0.0, False, 2]), min_size=2, max_size=6))
-    set_case = st.fixed_dictionaries({"src": st.just("drawn"), "kind": st.just("set"), "init": set_init, "form": st.sampled_from(["list", "list", "sortedset"]), "ops": hist.map(lambda cs: [dec_set(c) for c in cs])})
+    set_case = st.fixed_dictionaries({"src": st.just("drawn"), "kind": st.just("set"), "init": set_init, "form": st.sampled_from(["list", "list", "sortedset"]), "observe": st.sampled_from(["each", "each", "sparse"]), "ops": hist.map(lambda cs: [dec_set(c) for c in cs])})
     pair = st.tuples(num, st.integers(0, 49)).map(list)
     pair_rep = st.tuples(st.sampled_from([1, 1.0, True, 0, -0.0, 2, 0.5]), st.integers(0, 49)).map(list)
     map_init = st.one_of(st.none(), st.just([]), st.lists(pair, max_size=8), st.lists(pair_rep, min_size=2, max_size=6))
-    map_case = st.fixed_dictionaries({"src": st.just("drawn"), "kind": st.just("map"), "init": map_init, "form": st.sampled_from(["pairs", "pairs", "dict", "gen", "sortedmap", "sortedmap"]),
+    map_case = st.fixed_dictionaries({"src": st.just("drawn"), "kind": st.just("map"), "init": map_init, "form": st.sampled_from(["pairs", "pairs", "dict", "gen", "sortedmap", "sortedmap"]), "observe": st.sampled_from(["each", "each", "sparse"]),
                                       "ops": hist.map(lambda cs: [dec_map(c) for c in cs])})
+    # "read key x - one operation - read key x" segments, observed only through those reads: a memo of the last lookup that one
+    # mutator forgets to drop (round 17) needs exactly that shape, and a full iteration after every step would hide it
+    code = st.integers(0, 2 ** 24 - 1)
+
+    def segs(dec, read):
+        seg = st.one_of(code.map(lambda c: [dec(c)]), st.tuples(num, code).map(lambda t: [[read, t[0]], dec(t[1]), [read, t[0]]]))
+        return st.lists(seg, min_size=1, max_size=12).map(lambda ss: [o for sg in ss for o in sg])
+    set_probe = st.fixed_dictionaries({"src": st.just("drawn"), "kind": st.just("set"), "init": set_init, "form": st.just("list"), "observe": st.just("sparse"), "ops": segs(dec_set, "in")})
+    map_probe = st.fixed_dictionaries({"src": st.just("drawn"), "kind": st.just("map"), "init": map_init, "form": st.sampled_from(["pairs", "dict"]), "observe": st.just("sparse"), "ops": segs(dec_map, "get")})
     n = 3000000 if big else 30000
-    return [("sets", set_case, n // 2), ("maps", map_case, n // 2)]
+    return [("sets", set_case, n // 2), ("maps", map_case, n // 2), ("read-op-read-sets", set_probe, n // 8), ("read-op-read-maps", map_probe, n // 4)]
 
 
 def enum_sets(maxlen):
